@@ -46,55 +46,55 @@ Print Assumptions well_locked_race_free.
 
 (* ------------------------------------------------------------ the table *)
 
-(* any number of goroutines, each running any method of the table except the
-   culprits (VerifyStates, SetSchema, Import, NM.Tracers, NM.Log), any
-   schedule, once the export copy of the state names exists: no race on any
-   field *)
-Theorem api_warm_race_free :
+(* /repo as it is (table variant Cur, HEAD 031458c): any number of goroutines,
+   each running any method of the table except VerifyStates, SetSchema and
+   Import, any schedule, whether or not the export copy of the state names has
+   been built: no race on any field *)
+Theorem api_race_free :
   forall (names : list string) (f : field) (sched : list nat),
     (forall n, In n names -> is_culprit n = false) ->
-    race_on f (exec (init (map (prog_of Warm) names)) sched) = false.
-Proof. exact C12Proofs.api_warm_race_free_lemma. Qed.
-Print Assumptions api_warm_race_free.
+    race_on f (exec (init (map (prog_of Cur) names)) sched) = false.
+Proof. exact C12Proofs.api_race_free_lemma. Qed.
+Print Assumptions api_race_free.
 
-(* R: the full statement is false of the table as the code is:
-   forall names f sched, race_on f (exec (init (map (prog_of Cold) names)) sched) = false.
-   Two first-time StateNames() calls both write the lazily built copy while
-   holding schemaMx only in shared mode (machine.go:3155-3164). *)
-Theorem statenames_refuted :
-  exists sched,
-    race_on stateNamesExport
-      (exec (init [prog_of Cold "StateNames"; prog_of Cold "StateNames"]) sched) = true.
-Proof. exact C12Proofs.statenames_refuted_lemma. Qed.
-Print Assumptions statenames_refuted.
+(* in particular (formerly statenames_refuted, repaired by f998d9b): any number
+   of StateNames() calls, first-time or not *)
+Theorem statenames_race_free :
+  forall (n : nat) (f : field) (sched : list nat),
+    race_on f (exec (init (repeat (prog_of Cur "StateNames") n)) sched) = false.
+Proof. exact C12Proofs.statenames_race_free_lemma. Qed.
+Print Assumptions statenames_race_free.
 
-(* under the candidate repairs (corpus/C12/fix_c12_*.diff: stateNamesExport as
-   an atomic pointer, VerifyStates / Import / Has / NetworkMachine.Tracers /
-   updateClock take the right locks) the statement holds for every method of
-   the table except SetSchema, whether or not the copy exists *)
-Theorem api_fixed_race_free :
+(* and (formerly netmach_refuted, repaired by f656cf0 and 031458c): any number
+   of goroutines over the NetworkMachine entries, the clock feeder included *)
+Theorem netmach_race_free :
   forall (names : list string) (f : field) (sched : list nat),
-    (forall n, In n names -> String.eqb n "SetSchema" = false) ->
-    race_on f (exec (init (map (prog_of Fixed) names)) sched) = false.
-Proof. exact C12Proofs.api_fixed_race_free_lemma. Qed.
-Print Assumptions api_fixed_race_free.
+    (forall n, In n names -> String.prefix "NM." n = true) ->
+    race_on f (exec (init (map (prog_of Cur) names)) sched) = false.
+Proof. exact C12Proofs.netmach_race_free_lemma. Qed.
+Print Assumptions netmach_race_free.
 
-(* the culprits really are: VerifyStates writes stateNames / the export copy
-   under schemaMx.RLock *)
+(* R: the full statement, without the exclusion of the three culprits,
+     forall names f sched, race_on f (exec (init (map (prog_of Cur) names)) sched) = false
+   is false of the table as the code is; the next three theorems are the
+   witnesses. *)
+
+(* VerifyStates writes stateNames under schemaMx.RLock: races with is() (which
+   reads it under activeStatesMx) and with StateNames() (under schemaMx.RLock) *)
 Theorem verifystates_refuted :
   (exists sched, race_on stateNames
-     (exec (init [prog_of Warm "VerifyStates"; prog_of Warm "Is"]) sched) = true) /\
-  (exists sched, race_on stateNamesExport
-     (exec (init [prog_of Warm "VerifyStates"; prog_of Warm "StateNames"]) sched) = true).
+     (exec (init [prog_of Cur "VerifyStates"; prog_of Cur "Is"]) sched) = true) /\
+  (exists sched, race_on stateNames
+     (exec (init [prog_of Cur "VerifyStates"; prog_of Cur "StateNames"]) sched) = true).
 Proof. exact C12Proofs.verifystates_refuted_lemma. Qed.
 Print Assumptions verifystates_refuted.
 
 (* Import writes activeStates / clock under activeStatesMx.RLock *)
 Theorem import_refuted :
   (exists sched, race_on activeStates
-     (exec (init [prog_of Warm "Import"; prog_of Warm "Is"]) sched) = true) /\
+     (exec (init [prog_of Cur "Import"; prog_of Cur "Is"]) sched) = true) /\
   (exists sched, race_on clock
-     (exec (init [prog_of Warm "Import"; prog_of Warm "Tick"]) sched) = true).
+     (exec (init [prog_of Cur "Import"; prog_of Cur "Tick"]) sched) = true).
 Proof. exact C12Proofs.import_refuted_lemma. Qed.
 Print Assumptions import_refuted.
 
@@ -102,29 +102,42 @@ Print Assumptions import_refuted.
    under activeStatesMx / no lock *)
 Theorem setschema_refuted :
   (exists sched, race_on stateNames
-     (exec (init [prog_of Warm "SetSchema"; prog_of Warm "Has"]) sched) = true) /\
+     (exec (init [prog_of Cur "SetSchema"; prog_of Cur "Has"]) sched) = true) /\
   (exists sched, race_on stateNames
-     (exec (init [prog_of Warm "SetSchema"; prog_of Warm "Is"]) sched) = true).
+     (exec (init [prog_of Cur "SetSchema"; prog_of Cur "Is"]) sched) = true).
 Proof. exact C12Proofs.setschema_refuted_lemma. Qed.
 Print Assumptions setschema_refuted.
 
-(* NetworkMachine: Tracers() reads the tracer list under clockMx while
-   TracerBind writes it under tracersMx; updateClock reads and resets
-   logEntries without logEntriesLock *)
-Theorem netmach_refuted :
+(* under the candidate repairs that are not applied (corpus/C12/
+   fix_c12_machine.diff: VerifyStates / Import / Has take the right locks) the
+   statement holds for every method of the table except SetSchema *)
+Theorem api_fixed_race_free :
+  forall (names : list string) (f : field) (sched : list nat),
+    (forall n, In n names -> String.eqb n "SetSchema" = false) ->
+    race_on f (exec (init (map (prog_of Fixed) names)) sched) = false.
+Proof. exact C12Proofs.api_fixed_race_free_lemma. Qed.
+Print Assumptions api_fixed_race_free.
+
+(* regression statement: on the table of the code BEFORE f998d9b / f656cf0 /
+   031458c the three repaired pairs do race (two first-time StateNames() write
+   the copy under schemaMx.RLock; Tracers() under clockMx against TracerBind
+   under tracersMx; updateClock resets logEntries without logEntriesLock) *)
+Theorem legacy_races :
+  (exists sched, race_on stateNamesExport
+     (exec (init [prog_of Legacy "StateNames"; prog_of Legacy "StateNames"]) sched) = true) /\
   (exists sched, race_on nmTracers
-     (exec (init [prog_of Warm "NM.TracerBind"; prog_of Warm "NM.Tracers"]) sched) = true) /\
+     (exec (init [prog_of Legacy "NM.TracerBind"; prog_of Legacy "NM.Tracers"]) sched) = true) /\
   (exists sched, race_on nmLogEntries
-     (exec (init [prog_of Warm "NM.UpdateClock"; prog_of Warm "NM.Log"]) sched) = true).
-Proof. exact C12Proofs.netmach_refuted_lemma. Qed.
-Print Assumptions netmach_refuted.
+     (exec (init [prog_of Legacy "NM.UpdateClock"; prog_of Legacy "NM.Log"]) sched) = true).
+Proof. exact C12Proofs.legacy_races_lemma. Qed.
+Print Assumptions legacy_races.
 
 (* the guard discipline [guards] (readers hold one guard, writers all of them
    exclusively) is followed by every entry outside [discipline_exceptions];
    threads drawn from those entries are race free by well_locked_race_free *)
 Theorem api_guarded_race_free :
   forall (v : variant) (es : list entry) (f : field) (sched : list nat),
-    v <> Cold ->
+    v <> Legacy ->
     (forall e, In e es -> In e (api_table v) /\ breaks_discipline (e_name e) = false) ->
     race_on f (exec (init (map e_prog es)) sched) = false.
 Proof. exact C12Proofs.api_guarded_race_free_lemma. Qed.
